@@ -493,3 +493,19 @@ package regclient
 //@   ensures one-config-per-request: len(opts.referrerConfs) == old(len(opts.referrerConfs)) + 1
 //@   ensures unfiltered-request-matches-everything: len(rOpts) == 0 ==> opts.referrerConfs[len(opts.referrerConfs)-1] == scheme.ReferrerConfig{}
 //@   ensures earlier-requests-kept: forall(i, int, 0 <= i && i < old(len(opts.referrerConfs)) ==> opts.referrerConfs[i] == old(opts.referrerConfs)[i])
+
+// ---- C09: import follows the links of an archive as tar defines them ----
+// "archives whose entries appear ... through symlinks/hardlinks": tarReadAll records, for every
+// link entry, which archive member the link stands for. The recorded target is the mathematical
+// function of the entry that POSIX pax / GNU tar define - a symbolic link names its target
+// relative to the DIRECTORY OF THE LINK, a hard link (and any absolute target) relative to the ROOT
+// of the archive - cleaned against the root and in slash form ($fpJoin2, $fpDir, $fpClean, $fpIsAbs,
+// $fpToSlash: path/filepath as uninterpreted functions of their arguments, specs/c20.spec).
+//@ callsite (*tarReadData).linkAdd(src, tgt)
+//@   prop C09
+//@   name linkAdd/tarReadAll
+//@   in ~
+//@   infunc \)\.tarReadAll$
+//@   requires link-recorded-under-its-own-name: src == $fpToSlash($fpClean(caller.header.Name))
+//@   requires symlink-target-relative-to-the-links-directory: caller.header.Typeflag == tar.TypeSymlink && !$fpIsAbs(caller.header.Linkname) ==> tgt == $fpToSlash($fpClean("/" + $fpJoin2($fpDir(src), caller.header.Linkname))[1:])
+//@   requires other-targets-relative-to-the-archive-root: caller.header.Typeflag != tar.TypeSymlink || $fpIsAbs(caller.header.Linkname) ==> tgt == $fpToSlash($fpClean("/" + caller.header.Linkname)[1:])
